@@ -38,7 +38,7 @@ ASSUMPTIONS = ['"detached or fragment arguments" is read as: the argument (or ev
                'parentNode of nodes that are not listed (removed children, clones, spent fragments) is stale by design of the library and '
                'not constrained by the invariant']
 CASE_TIMEOUT = 60
-OP_TIMEOUT = 0.05     # seconds of CPU time (ITIMER_VIRTUAL); real operations take microseconds
+OP_TIMEOUT = 0.1     # seconds of CPU time (ITIMER_VIRTUAL); real operations take microseconds
 
 (CDOC, CELEM, CTEXT, CFRAG, APPEND, INSERT, INSBEFORE, INSAFTER, REPLACE, REMOVE, POP, SETITEM, EXTEND, EXTLIST,
  NORMALIZE, CLONE, SETATTR) = range(17)
@@ -63,6 +63,13 @@ def worker_init():
     import signal
     # CPU-time timer: a loop that never ends burns CPU; a worker that is merely descheduled on a busy machine does not
     signal.signal(signal.SIGVTALRM, _on_alarm)
+    # no garbage collection inside a timed operation (a full collection can take longer than the time-out): everything
+    # imported so far is frozen, collection is explicit between cases
+    import gc
+    gc.collect()
+    if hasattr(gc, 'freeze'):
+        gc.freeze()
+    gc.disable()
 
 
 class Impl(object):
@@ -258,6 +265,14 @@ def _run_ops(ops):
 
 
 def run_impl(case):
+    import gc
+    try:
+        return _run_impl(case)
+    finally:
+        gc.collect()
+
+
+def _run_impl(case):
     if case['kind'] == 'hist':
         st, tr, g, ok = _run_ops(case['ops'])
         ans = []
@@ -403,7 +418,7 @@ def _compare_trace(ops, itr, mtr, creators, g, all_adm):
             if len(mtr) != len(itr):
                 return _verdict(False, 'C06:trace-length', 'traces end at different steps (%d vs %d)' % (len(itr), len(mtr))), g, all_adm
             return None, g, all_adm
-        adm, mout, md = mtr[k]
+        adm, mout, md = mtr[k][:3]
         iout, idl = itr[k]
         before_adm = all_adm
         all_adm = all_adm and bool(adm)
@@ -437,6 +452,10 @@ def _compare_trace(ops, itr, mtr, creators, g, all_adm):
             viol, what = _judge_step(op, g, gi, gm, creators, iout, mout)
             return _verdict(viol, 'C06:%s' % OPNAMES[op[0]], 'step %d %s: %s (implementation %s %s, Model %s %s)' % (
                 k, describe_op(op), what, iout, idl, mout, md), [mout, md]), g, all_adm
+        if len(mtr[k]) > 3 and all_adm and mtr[k][3] == 0:
+            # the two sides agree, and the tree they agree on is not the normalized tree the Spec (norm_tree) prescribes
+            return _verdict(True, 'C06:normalize:spec', 'step %d %s: the tree below the node is not the normalized tree '
+                            '(adjacent text merged, text content kept) of the tree before' % (k, describe_op(op))), g, all_adm
         g = apply_delta(g, md)
     return None, g, all_adm
 
@@ -940,7 +959,7 @@ def streams(rng, tier, boost):
             'exhaustive-tiny', out, 3000 if thorough else 600)
     pre_m, em, tm, fm = pool_ops(3, 2, 1)
     alpha_m = alphabet(em, tm, fm, [-3, -1, 0, 1, 2, 4])
-    explore(rng, [[CDOC]] + pre_m, alpha_m, 3, 2500 if thorough else 500, 'exhaustive-small', out, 1500 if thorough else 300)
+    explore(rng, [[CDOC]] + pre_m, alpha_m, 4 if thorough else 3, 2500 if thorough else 500, 'exhaustive-small', out, 1500 if thorough else 300)
     # (b) random histories
     n = (1500 if not thorough else 12000) * boost
     for i in range(n):
